@@ -30,6 +30,12 @@ def subterms(t):
         out += subterms(c["t"])
     return out
 
+def _names(t):
+    out = list(t["sl"])
+    for c in t["ch"]:
+        out += c["bd"] + _names(c["t"])
+    return out
+
 def vary(rng, t, pool):
     r = rng.random()
     if r < 0.35:                       # bijective renaming of all names (symmetries)
@@ -78,7 +84,18 @@ def universe(seed, i):
             {"op": "lam", "sl": [], "ch": [{"bd": [rng.choice(NAMES)], "t": a}]},
             {"op": "h", "sl": [], "ch": [{"bd": [], "t": a}, {"bd": [], "t": {"op": "v", "sl": [rng.choice(NAMES)], "ch": []}}]}])
         base.append(ti(par))
-    return {"name": "R%d_%d" % (seed, i), "N": 4, "terms": terms, "texts": [show(t) for t in terms], "eqs": eqs,
+    # keep the ground universe small: estimate = sum over distinct subterms of the number of images
+    def nimg(t):
+        k = len({x for x in _names(t)})
+        r = 1
+        for j in range(k):
+            r *= (4 - j)
+        return max(r, 1)
+    subs = {json.dumps(s, sort_keys=True): s for t in terms for s in subterms(t)}
+    est = sum(nimg(s) for s in subs.values())
+    if est > 330 and i < 100000:
+        return universe(seed, i + 100003)
+    return {"name": "R%d_%d" % (seed, i % 100003), "N": 4, "terms": terms, "texts": [show(t) for t in terms], "eqs": eqs,
             "base": sorted(set(base)), "note": "random universe"}
 
 if __name__ == "__main__":
